@@ -84,6 +84,44 @@ func checkStats(ws *WSeg, seg segment.Segment, how string) *Fail {
 	return nil
 }
 
+// foreignStats is a segment.CollectionStats that is not ice's own type (the
+// statistics of another segment implementation or a caller-side accumulator).
+type foreignStats struct{ total, docs, sum uint64 }
+
+func (f *foreignStats) TotalDocumentCount() uint64    { return f.total }
+func (f *foreignStats) DocumentCount() uint64         { return f.docs }
+func (f *foreignStats) SumTotalTermFrequency() uint64 { return f.sum }
+func (f *foreignStats) Merge(o segment.CollectionStats) {
+	f.total += o.TotalDocumentCount()
+	f.docs += o.DocumentCount()
+	f.sum += o.SumTotalTermFrequency()
+}
+
+// checkStatsMergeForeign: Merge adds component-wise also when the argument is
+// another implementation of the interface.
+func checkStatsMergeForeign(a segment.Segment, field string) *Fail {
+	var fail *Fail
+	pi := Guard(func() {
+		x, err := a.CollectionStats(field)
+		if err != nil {
+			fail = apiFail("C16", "stats", "CollectionStats", nil, err)
+			return
+		}
+		x0 := model.StatObs{Total: x.TotalDocumentCount(), Docs: x.DocumentCount(), Sum: x.SumTotalTermFrequency()}
+		other := &foreignStats{total: 1000, docs: 7, sum: 123456789}
+		x.Merge(other)
+		got := model.StatObs{Total: x.TotalDocumentCount(), Docs: x.DocumentCount(), Sum: x.SumTotalTermFrequency()}
+		want := model.StatObs{Total: x0.Total + 1000, Docs: x0.Docs + 7, Sum: x0.Sum + 123456789}
+		if got != want {
+			fail = mismatch("C16", "stats", "Merge", fmt.Sprintf("field %q: %+v.Merge(foreign implementation {1000 7 123456789}) = %+v want %+v", field, x0, got, want))
+		}
+	})
+	if pi != nil {
+		return apiFail("C16", "stats", "CollectionStats.Merge(foreign)", pi, nil)
+	}
+	return fail
+}
+
 // checkStatsMergeAdds: CollectionStats.Merge adds component-wise.
 func checkStatsMergeAdds(a, b segment.Segment, field string) *Fail {
 	var fail *Fail
